@@ -18,7 +18,9 @@ Model driver for C13 (`drv_opts`).
 * `probes`       x<hex>: option names separated by one space
 
 git file: lines `m TAB key TAB value` (`[delta]`), `s TAB feature TAB key TAB value`
-(`[delta "feature"]`), `o TAB fullkey TAB value` (anything else).
+(`[delta "feature"]`), `o TAB fullkey TAB value` (anything else); a key written without `= value`:
+`mb TAB key`, `sb TAB feature TAB key`. Values are what libgit2's file parser hands over (quotes,
+escapes, comments removed).
 
 Response: `ok <x features joined by space> <v1> <v2> …` with one `v` per probe:
 `c:<xhex>` command line, `g:<xhex>` git config text, `b:<xhex>` builtin literal,
@@ -54,6 +56,8 @@ def parseGitFile (s : String) : GitFile :=
     | ["s", f] => if (lookup f gf.sections).isSome then gf
                   else { gf with sections := gf.sections ++ [(f, [])] }
     | ["o", k, v] => { gf with other := gf.other ++ [(k, v)] }
+    | ["mb", k] => { gf with main := gf.main ++ [(k, bareMark)] }
+    | ["sb", f, k] => { gf with sections := insertSection f k bareMark gf.sections }
     | _ => gf) GitFile.empty
 
 def optField (f : String) : Option (Option String) :=
